@@ -41,10 +41,28 @@ pub fn verif_root() -> PathBuf {
     std::env::var("VERIF_ROOT").map(PathBuf::from).unwrap_or_else(|_| PathBuf::from("/verif"))
 }
 
+/// Directory for transient files (snapshot files written and read back inside one case).
+/// A tmpfs directory when available (the files live for microseconds), else /verif/.scratch.
 pub fn scratch_dir() -> PathBuf {
-    let d = verif_root().join(".scratch");
-    let _ = std::fs::create_dir_all(&d);
-    d
+    static DIR: std::sync::OnceLock<PathBuf> = std::sync::OnceLock::new();
+    DIR.get_or_init(|| {
+        let shm = PathBuf::from(format!("/dev/shm/bourse-verif-{}", std::process::id()));
+        if std::env::var("VERIF_NO_SHM").is_err() && std::fs::create_dir_all(&shm).is_ok() {
+            return shm;
+        }
+        let d = verif_root().join(".scratch");
+        let _ = std::fs::create_dir_all(&d);
+        d
+    })
+    .clone()
+}
+
+/// Remove the transient directory (called at the end of a run).
+pub fn cleanup_scratch() {
+    let d = scratch_dir();
+    if d.starts_with("/dev/shm") {
+        let _ = std::fs::remove_dir_all(d);
+    }
 }
 
 pub fn n_threads() -> usize {
@@ -228,7 +246,7 @@ pub struct RunResult {
 fn write_replay<C: Serialize>(id: &str, part: &str, case: &C, f: &Failure) -> PathBuf {
     // VERIF_NO_SAVE (sensitivity runs against deliberately broken trees): keep the committed replay
     // tier clean, write the reproduction under .scratch instead
-    let dir = if std::env::var("VERIF_NO_SAVE").is_ok() { scratch_dir().join("found").join(id) } else { verif_root().join("replays").join(id) };
+    let dir = if std::env::var("VERIF_NO_SAVE").is_ok() { verif_root().join(".scratch").join("found").join(id) } else { verif_root().join("replays").join(id) };
     let _ = std::fs::create_dir_all(&dir);
     let body = json!({"property": id, "part": part, "case": case, "failure": {"oracle_property": f.prop, "signature": f.sig, "message": f.msg}});
     let text = serde_json::to_string_pretty(&body).unwrap();
@@ -290,6 +308,7 @@ where
         std::thread::spawn(move || {
             std::thread::sleep(std::time::Duration::from_secs(limit_s));
             println!("INCONCLUSIVE property={} watchdog after {} s", id, limit_s);
+            cleanup_scratch();
             std::process::exit(2);
         });
     }
@@ -567,6 +586,7 @@ where
         violations.len(),
         wall
     );
+    cleanup_scratch();
     if violations.is_empty() {
         0
     } else {
